@@ -265,8 +265,24 @@ func ZZH_C13_prefix() {
 	if zz.Thorough() {
 		k = 4
 	}
+	// a flushed block whose Commit is still outstanding (the executor persists asynchronously: the
+	// next block may already run while the previous one is being written)
+	var pending *pendingCommit
+	commitPending := func() {
+		if pending != nil {
+			if err := l.Commit(pending.h, pending.accounts, pending.root); err != nil {
+				panic(err)
+			}
+			pending = nil
+		}
+	}
 	for step := 0; step < k; step++ {
-		switch zz.Choice("op", 4) {
+		switch zz.Choice("op", 5) {
+		case 4: // end of block: flush now, commit later
+			commitPending()
+			height++
+			acc, root := l.FlushDirtyData()
+			pending = &pendingCommit{h: height, accounts: acc, root: root}
 		case 0:
 			key := zzKeys[zz.Choice("key", 3)]
 			v := []byte{zz.U8("v")}
@@ -277,9 +293,11 @@ func ZZH_C13_prefix() {
 			l.SetState(addr, []byte(key), nil, nil)
 			delete(model, key)
 		case 2:
+			commitPending()
 			height++
 			zzCommit(l, height)
 		case 3:
+			commitPending()
 			height++
 			zzCommit(l, height)
 			cache, _ = NewAccountCache()
